@@ -106,3 +106,13 @@ CHECKS["C03"] = dict(
         "a case that does not finish within 60 s is reported as a violation (both ends run independent sender/receiver goroutines, so no user-level wait cycle exists)",
     ],
 )
+
+CHECKS["C07"] = dict(
+    parts=[dict(pkg="net", run="^TestC07_")], level="exploration",
+    quick=dict(shards=8, checks=120, timeout=900),
+    thorough=dict(shards=16, checks=1500, timeout=3000),
+    assumptions=[
+        "'must block' is observed for 60 ms (a late frame can only make the check miss a bug, never invent one); 'must be admitted / delivered' uses a 10 s bound",
+        "W is the opener's window carried by the open frame; the opening payload and the closing SendAndClose payload debit without waiting",
+    ],
+)
